@@ -78,7 +78,9 @@ def secwithin_cases(cid, kind, placement, rng):
         text = "%s%s%s %s, %s" % (lead, glue, sec, trail, trtxt)
     return {"id": cid, "kind": "c20",
             "abs": {"kind": "secwithin", "nums": nums, "conns": conns, "tr": tr},
-            "args": {"mode": "secwithin", "text": text, "tr": tr, "expected_desc": "%s %s" % (lead, trail)}}
+            # (the documented combination with `segment` gives the same: one Twp/Rge, one chunk)
+            "args": {"mode": "secwithin", "text": text, "tr": tr, "expected_desc": "%s %s" % (lead, trail),
+                     "cfg": rng.choice(["sec_within", "sec_within", "sec_within,segment", "segment,sec_within,parse_qq"])}}
 
 
 def check(ctx, cases):
